@@ -60,6 +60,9 @@ type Op struct {
 	H       int32  `json:"h,omitempty"` // rollback height
 	Obs     string `json:"obs,omitempty"`
 	Term    string `json:"term,omitempty"`
+	// backlog probes made while the operation was running (-prop C19)
+	Probes []ProbeRec `json:"probes,omitempty"`
+	ftDrop int        // committed blocks removed by the operation (report only)
 }
 
 type History struct {
@@ -110,6 +113,10 @@ type env struct {
 	gfh       chainhash.Hash
 	panicked  string
 	panicStep int
+	// -prop C19: unbuffered notification channel, consumed by the harness
+	ntfn     chan blockntfns.BlockNtfn
+	stackBuf []byte
+	hung     string
 }
 
 type clock struct{ t time.Time }
@@ -237,25 +244,7 @@ func (v *env) observe(evs []blockntfns.BlockNtfn, since []int64) string {
 		}
 	}
 	sb.WriteString(" " + c.List(es))
-	var sn []string
-	for _, h := range since {
-		if h < 0 {
-			continue
-		}
-		ntfns, best, err := v.bm.NotificationsSinceHeight(uint32(h))
-		if err != nil {
-			sn = append(sn, c.Pair(c.Z(h), "None"))
-			continue
-		}
-		var it []string
-		for _, n := range ntfns {
-			hd := n.Header()
-			hh := hd.BlockHash()
-			it = append(it, c.Pair(c.Z(v.tok(hh)), c.Z(int64(n.Height()))))
-		}
-		sn = append(sn, c.Pair(c.Z(h), c.Some(c.Pair(c.List(it), c.Z(int64(best))))))
-	}
-	sb.WriteString(" " + c.List(sn) + ")")
+	sb.WriteString(" " + v.sinceTerm(since) + ")")
 	return sb.String()
 }
 
@@ -370,6 +359,7 @@ func genTree(r *rand.Rand, ps *ParamSpec, now0 int64) *Tree {
 		cur = t.mine(r, cur, dtOf(), "", now0)
 		mainNodes = append(mainNodes, cur)
 	}
+	t.main = mainNodes
 	// forks
 	nf := 1 + r.Intn(4)
 	var forkBases []*Node
@@ -467,7 +457,7 @@ func (t *Tree) leaves() []*Node {
 	return l
 }
 
-func genOps(r *rand.Rand, t *Tree, v *env, nops int, now0 int64) []Op {
+func genOps(r, r2 *rand.Rand, t *Tree, v *env, nops int, now0 int64) []Op {
 	var ops []Op
 	npeers := 1 + r.Intn(3)
 	leaves := t.leaves()
@@ -477,9 +467,22 @@ func genOps(r *rand.Rand, t *Tree, v *env, nops int, now0 int64) []Op {
 	}
 	ps := map[int]*pstate{}
 	alive := map[int]bool{}
-	emit := func(op Op) {
+	// emitP executes op on the real block manager and records the
+	// observation. With -prop C19 the operation runs against the unbuffered
+	// notification channel and the backlog is probed at the planned moments
+	// (plan == nil: a random plan for operations that can emit events).
+	emitP := func(op Op, plan []ProbeRec) {
 		if v.panicked != "" {
 			return
+		}
+		var evs []blockntfns.BlockNtfn
+		ftBefore := int(v.bm.FilterHeaderTip())
+		if v.ntfn != nil && plan == nil && (op.Kind == "headers" || op.Kind == "writecf") && r2.Intn(10) < 7 {
+			k := r2.Intn(4)
+			plan = []ProbeRec{{K: k}}
+			if r2.Intn(2) == 0 {
+				plan = append(plan, ProbeRec{K: k + 1 + r2.Intn(3)})
+			}
 		}
 		func() {
 			defer func() {
@@ -488,8 +491,16 @@ func genOps(r *rand.Rand, t *Tree, v *env, nops int, now0 int64) []Op {
 					v.panicStep = len(ops)
 				}
 			}()
-			v.exec(&op)
+			if v.ntfn != nil {
+				evs, op.Probes = v.execProbed(&op, plan, true)
+			} else {
+				v.exec(&op)
+			}
 		}()
+		if v.hung != "" && v.panicked == "" {
+			v.panicked = v.hung
+			v.panicStep = len(ops)
+		}
 		if v.panicked != "" {
 			op.Obs, op.Term = "", ""
 			ops = append(ops, op) // keep the crashing operation in the replayable history
@@ -500,8 +511,18 @@ func genOps(r *rand.Rand, t *Tree, v *env, nops int, now0 int64) []Op {
 			ft := int64(v.bm.FilterHeaderTip())
 			since = []int64{0, 1, ft, ft - 1, ft + 1, 2}
 		}
-		op.Obs = v.observe(v.bm.DrainNotifications(), since)
+		if v.ntfn == nil {
+			evs = v.bm.DrainNotifications()
+		}
+		op.Obs = v.observe(evs, since)
+		op.ftDrop = ftBefore - int(v.bm.FilterHeaderTip())
 		ops = append(ops, op)
+	}
+	emit := func(op Op) { emitP(op, nil) }
+	addPeerAt := func(id int, leaf *Node) {
+		ps[id] = &pstate{leaf: leaf, sent: t.Nodes[0]}
+		alive[id] = true
+		emit(Op{Kind: "newpeer", Peer: id, Start: leaf.Height, Last: leaf.Height, Full: true})
 	}
 	addPeer := func(id int) {
 		leaf := leaves[r.Intn(len(leaves))]
@@ -517,7 +538,145 @@ func genOps(r *rand.Rand, t *Tree, v *env, nops int, now0 int64) []Op {
 		}
 		emit(Op{Kind: "newpeer", Peer: id, Start: start, Last: last, Full: r.Intn(8) != 0})
 	}
-	for id := 1; id <= npeers; id++ {
+	nodeIDs := func(seg []*Node) []int {
+		var ns []int
+		for _, n := range seg {
+			ns = append(ns, n.ID)
+		}
+		return ns
+	}
+	nowOK := func() int64 { return now0 + int64(r2.Intn(600)) }
+	// midPlan: one or two moments strictly inside an operation expected to
+	// emit n events (and sometimes the moment before the first event)
+	midPlan := func(n int) []ProbeRec {
+		if n < 2 {
+			return []ProbeRec{{K: 0}}
+		}
+		k := 1 + r2.Intn(n-1)
+		plan := []ProbeRec{{K: k}}
+		if k+1 < n && r2.Intn(2) == 0 {
+			plan = append(plan, ProbeRec{K: k + 1 + r2.Intn(n-k-1)})
+		}
+		if r2.Intn(4) == 0 {
+			plan = append([]ProbeRec{{K: 0}}, plan...)
+		}
+		return plan
+	}
+	// cfBatch commits filter headers for the next k blocks of the stored chain
+	cfBatch := func(k int, bad bool, plan []ProbeRec) bool {
+		_, bt, err := v.e.BS.ChainTip()
+		_, ft, err2 := v.e.FS.ChainTip()
+		if err != nil || err2 != nil || ft >= bt {
+			return false
+		}
+		if k > int(bt-ft) {
+			k = int(bt - ft)
+		}
+		hd, err := v.e.BS.FetchHeaderByHeight(ft + uint32(k))
+		if err != nil {
+			return false
+		}
+		stop := int(v.tok(hd.BlockHash())) - 1
+		if stop < 0 {
+			return false
+		}
+		emitP(Op{Kind: "writecf", Node: stop, N: k, BadPrev: bad}, plan)
+		return true
+	}
+	firstPeer := 1
+	switch {
+	case t.trap != nil:
+		// ONE headers message from the sync peer, sent while the tip is
+		// below the first checkpoint, that matches the first checkpoint
+		// and carries a non-checkpointed valid header at the height of
+		// the second one
+		tr := t.trap
+		addPeerAt(1, tr.forkLeaf)
+		firstPeer = 2
+		full := t.path(t.Nodes[0], tr.forkLeaf)
+		j := 0
+		if r2.Intn(2) == 0 {
+			j = r2.Intn(int(tr.c1)) // heights 1..j (j < c1) are synced first
+		}
+		if j > 0 {
+			emit(Op{Kind: "headers", Peer: 1, Now: nowOK(), Nodes: nodeIDs(full[:j])})
+		}
+		upto := int(tr.c2) + r2.Intn(3)
+		if upto > len(full) {
+			upto = len(full)
+		}
+		emit(Op{Kind: "headers", Peer: 1, Now: nowOK(), Nodes: nodeIDs(full[j:upto])})
+		ps[1].sent = full[upto-1]
+	case t.reorgLeaf != nil:
+		// sync the main chain, commit filter headers up to (nearly) the
+		// tip in batches of >= 3, then a peer with a longer branch
+		// forking >= 2 blocks below the tip, then filter headers for the
+		// new branch; the backlog is probed inside the batches and
+		// inside the reorganisation
+		mainTip := t.main[len(t.main)-1]
+		addPeerAt(1, mainTip)
+		full := t.path(t.Nodes[0], mainTip)
+		for i := 0; i < 12; i++ {
+			// answer like a node: the headers the client does not have yet
+			// (a message is cut at a checkpoint, so this may take more
+			// messages than len(full)/k)
+			var rest []*Node
+			for _, n := range full {
+				hh := n.Hash
+				if _, err := v.e.BS.HeightFromHash(&hh); err != nil {
+					rest = append(rest, n)
+				}
+			}
+			if len(rest) == 0 {
+				break
+			}
+			k := 4 + r2.Intn(8)
+			if k > len(rest) {
+				k = len(rest)
+			}
+			emit(Op{Kind: "headers", Peer: 1, Now: nowOK(), Nodes: nodeIDs(rest[:k])})
+		}
+		target := int(mainTip.Height) - r2.Intn(2)
+		for i := 0; i < 12; i++ {
+			_, ft, err := v.e.FS.ChainTip()
+			if err != nil || int(ft) >= target {
+				break
+			}
+			k := 3 + r2.Intn(4)
+			if int(ft)+k > target {
+				k = target - int(ft)
+			}
+			if !cfBatch(k, false, midPlan(k)) {
+				break
+			}
+		}
+		emit(Op{Kind: "donepeer", Peer: 1})
+		delete(alive, 1)
+		addPeerAt(2, t.reorgLeaf)
+		firstPeer = 3
+		var branch []*Node
+		for _, n := range t.path(t.Nodes[0], t.reorgLeaf) {
+			hh := n.Hash
+			if _, err := v.e.BS.HeightFromHash(&hh); err != nil {
+				branch = append(branch, n)
+			}
+		}
+		if len(branch) > 0 {
+			depth := int(mainTip.Height) - int(branch[0].Height) + 1
+			emitP(Op{Kind: "headers", Peer: 2, Now: nowOK(), Nodes: nodeIDs(branch)}, midPlan(depth))
+			ps[2].sent = t.reorgLeaf
+		}
+		for i := 0; i < 2; i++ {
+			k := 3 + r2.Intn(3)
+			if !cfBatch(k, false, midPlan(k)) {
+				break
+			}
+		}
+	}
+	if npeers < firstPeer {
+		npeers = firstPeer - 1
+	}
+	for id := firstPeer; id <= npeers; id++ {
 		addPeer(id)
 	}
 	nextPeer := npeers + 1
@@ -626,15 +785,9 @@ func genOps(r *rand.Rand, t *Tree, v *env, nops int, now0 int64) []Op {
 			if k > 6 {
 				k = 6
 			}
-			hd, err := v.e.BS.FetchHeaderByHeight(ft + uint32(k))
-			if err != nil {
+			if !cfBatch(k, r.Intn(8) == 0, nil) {
 				continue
 			}
-			stop := int(v.tok(hd.BlockHash())) - 1
-			if stop < 0 {
-				continue
-			}
-			emit(Op{Kind: "writecf", Node: stop, N: k, BadPrev: r.Intn(8) == 0})
 		default:
 			// (rollBackToHeight is only ever reached through
 			// handleHeadersMsg: reorganisations and checkpoint
@@ -657,6 +810,7 @@ func runHistory(id int, seed int64, nops int, base string, replay *History) (h H
 	}
 	defer os.RemoveAll(dir)
 	r := c.Rng(seed, id)
+	r2 := c.Rng(seed, id+500009)
 	now0 := chaincfg.SimNetParams.GenesisBlock.Header.Timestamp.Unix() + 3600
 	var ps ParamSpec
 	var t *Tree
@@ -678,7 +832,17 @@ func runHistory(id int, seed int64, nops int, base string, replay *History) (h H
 	} else {
 		ps = ParamSpec{Bpr: int64(3 + r.Intn(6)), NoRetarget: r.Intn(5) < 2, ReduceMin: r.Intn(2) == 0,
 			Bip94: r.Intn(6) == 0, BipHeight: []int32{0, 0, 5}[r.Intn(3)], MemCap: []uint32{40, 48, 64, 0}[r.Intn(4)]}
-		t = genTree(r, &ps, now0)
+		// scenario histories draw from their own stream (r2); the plain
+		// histories are the same with and without them
+		switch mode := r2.Intn(100); {
+		case mode < 15:
+			t = genTrapTree(r2, &ps, now0)
+		case mode < 60 && *propFlag == "C19":
+			t = genTree(r, &ps, now0)
+			addReorgFork(r2, t, &ps, now0)
+		default:
+			t = genTree(r, &ps, now0)
+		}
 	}
 	params := mkParams(ps, t)
 	t.P = params
@@ -698,10 +862,16 @@ func runHistory(id int, seed int64, nops int, base string, replay *History) (h H
 	if err != nil {
 		panic(err)
 	}
+	if *propFlag == "C19" {
+		v.unbufferNotifications()
+	}
 	h = History{ID: id, Seed: seed, Params: ps}
 	if replay != nil {
 		for _, op := range replay.Ops {
 			op.Obs, op.Term = "", ""
+			plan := op.Probes
+			op.Probes = nil
+			var evs []blockntfns.BlockNtfn
 			func() {
 				defer func() {
 					if x := recover(); x != nil {
@@ -709,8 +879,16 @@ func runHistory(id int, seed int64, nops int, base string, replay *History) (h H
 						v.panicStep = len(h.Ops)
 					}
 				}()
-				v.exec(&op)
+				if v.ntfn != nil {
+					evs, op.Probes = v.execProbed(&op, plan, false)
+				} else {
+					v.exec(&op)
+				}
 			}()
+			if v.hung != "" && v.panicked == "" {
+				v.panicked = v.hung
+				v.panicStep = len(h.Ops)
+			}
 			if v.panicked != "" {
 				op.Obs, op.Term = "", ""
 				h.Ops = append(h.Ops, op)
@@ -719,11 +897,14 @@ func runHistory(id int, seed int64, nops int, base string, replay *History) (h H
 			var since []int64
 			ft := int64(v.bm.FilterHeaderTip())
 			since = []int64{0, 1, ft, ft - 1, ft + 1, 2}
-			op.Obs = v.observe(v.bm.DrainNotifications(), since)
+			if v.ntfn == nil {
+				evs = v.bm.DrainNotifications()
+			}
+			op.Obs = v.observe(evs, since)
 			h.Ops = append(h.Ops, op)
 		}
 	} else {
-		h.Ops = genOps(r, t, v, nops, now0)
+		h.Ops = genOps(r, r2, t, v, nops, now0)
 	}
 	for _, n := range t.Nodes {
 		if n.Raw == nil && n.ID > 0 {
@@ -774,10 +955,20 @@ func main() {
 	if a.Replay != "" {
 		var h History
 		c.ReadJSON(a.Replay, &h)
+		if len(h.Nodes) == 0 {
+			// a replay file written by ./check: the history is wrapped
+			var w struct {
+				History History `json:"history"`
+			}
+			c.ReadJSON(a.Replay, &w)
+			h = w.History
+		}
 		replay = &h
 		n = 1
 	} else {
 		files, _ := filepath.Glob("../corpus/BM/*.json")
+		more, _ := filepath.Glob("../corpus/" + prop + "/*.json")
+		files = append(files, more...)
 		for _, f := range files {
 			var h History
 			c.ReadJSON(f, &h)
@@ -840,7 +1031,12 @@ func main() {
 			}
 			sb.WriteString(fmt.Sprintf("Definition C%d : bcase := {| bid := %d; bparams := C%d_P; bgfh := %d; bhashes := %s; btrace := %s |}.\n",
 				h.ID, h.ID, h.ID, storeh.FilterBase, c.List(hashes), c.List(items)))
-			names = append(names, fmt.Sprintf("C%d", h.ID))
+			if prop == "C19" {
+				sb.WriteString(fmt.Sprintf("Definition M%d : mcase := {| mbase := C%d; mprobes := %s |}.\n", h.ID, h.ID, probesTerm(h)))
+				names = append(names, fmt.Sprintf("M%d", h.ID))
+			} else {
+				names = append(names, fmt.Sprintf("C%d", h.ID))
+			}
 		}
 		sb.WriteString("Definition R := Eval vm_compute in (run_cases " + c.List(names) + ").\nSet Printing Width 1000000.\nSet Printing Depth 1000000.\nPrint R.\n")
 		c.WriteFile(filepath.Join(a.Out, fmt.Sprintf("cases_%d.v", shard)), sb.String())
@@ -863,15 +1059,43 @@ func main() {
 			if strings.Contains(op.Obs, "EConn") {
 				cf = true
 			}
+			nconn, ndisc := strings.Count(op.Obs, "EConn"), strings.Count(op.Obs, "EDisc")
+			if nconn >= 3 {
+				rep.Histogram["filter_batches_of_3_or_more"]++
+			}
+			if ndisc >= 2 {
+				rep.Histogram["reorgs_of_depth_2_or_more"]++
+			}
+			if op.ftDrop >= 2 {
+				rep.Histogram["reorgs_removing_2_or_more_committed_blocks"]++
+			}
+			for _, p := range op.Probes {
+				rep.Histogram["backlog_probes"]++
+				switch {
+				case p.K < ndisc:
+					rep.Histogram["backlog_probes_inside_reorg"]++
+				case p.K < nconn:
+					rep.Histogram["backlog_probes_inside_filter_batch"]++
+				}
+			}
 		}
 		for _, nd := range envs[i].tree.Nodes {
 			if nd.Corrupt != "" {
 				rep.Histogram["corrupt:"+nd.Corrupt]++
 			}
 		}
-		if envs[i].panicked != "" {
+		if envs[i].hung != "" {
+			rep.ImplFailures = append(rep.ImplFailures, c.ImplFailure{Case: fmt.Sprint(h.ID), Step: envs[i].panicStep,
+				What: "backlog probe: " + envs[i].hung, Tag: "probe-timeout"})
+		} else if envs[i].panicked != "" {
 			rep.ImplFailures = append(rep.ImplFailures, c.ImplFailure{Case: fmt.Sprint(h.ID), Step: envs[i].panicStep,
 				What: "handler panicked: " + envs[i].panicked, Tag: "panic"})
+		}
+		if envs[i].tree.trap != nil {
+			rep.Histogram["histories_two_checkpoints_in_one_message"]++
+		}
+		if envs[i].tree.reorgLeaf != nil {
+			rep.Histogram["histories_c19_batch_reorg_scenario"]++
 		}
 		rep.Histogram["tree_nodes"] += len(envs[i].tree.Nodes)
 		rep.Histogram["checkpoints"] += len(h.Params.Checkpoints)
